@@ -205,3 +205,43 @@ theorem extremeLoop_max (hρ : 0 < L.radFactor) (q : MathQuirks) (d : Dim) (rest
         · exact h2 x h
 
 end MathFn
+
+namespace MathFn
+open MOps
+variable (L : Libm)
+
+theorem qcmp_canon (hρ : 0 < L.radFactor) (q : MathQuirks) (a b : Q Rat)
+    (ha : a.u ≠ .none) (hb : b.u ≠ .none) (hd : a.u.dim = b.u.dim) :
+    @qcmp Rat (ratOps L) q a b = some (cmpQ (canon L a) (canon L b)) := by
+  have h := cmp2_canon L hρ q a b ha hb hd
+  unfold cmp2 at h
+  cases hq : @qcmp Rat (ratOps L) q a b with
+  | some o => rw [hq] at h; exact h
+  | none => rw [hq] at h; simp [ha, hb] at h
+
+theorem qge_canon (hρ : 0 < L.radFactor) (q : MathQuirks) (a b : Q Rat)
+    (ha : a.u ≠ .none) (hb : b.u ≠ .none) (hd : a.u.dim = b.u.dim) :
+    @qge Rat (ratOps L) q a b = decide (canon L b ≤ canon L a) := by
+  unfold qge
+  rw [qcmp_canon L hρ q a b ha hb hd]
+  unfold cmpQ
+  by_cases h1 : canon L a = canon L b
+  · simp [h1]
+  · by_cases h2 : canon L a < canon L b
+    · simp [h1, h2, not_le.mpr h2]
+    · simp [h1, h2, not_lt.mp h2]
+
+theorem qle_canon (hρ : 0 < L.radFactor) (q : MathQuirks) (a b : Q Rat)
+    (ha : a.u ≠ .none) (hb : b.u ≠ .none) (hd : a.u.dim = b.u.dim) :
+    @qle Rat (ratOps L) q a b = decide (canon L a ≤ canon L b) := by
+  unfold qle
+  rw [qcmp_canon L hρ q a b ha hb hd]
+  unfold cmpQ
+  by_cases h1 : canon L a = canon L b
+  · simp [h1]
+  · by_cases h2 : canon L a < canon L b
+    · simp [h1, h2, le_of_lt h2]
+    · have : ¬ canon L a ≤ canon L b := fun h => h1 (le_antisymm h (not_lt.mp h2))
+      simp [h1, h2, this]
+
+end MathFn
